@@ -61,7 +61,7 @@ func continuation(name string, img []byte, rng *rand.Rand) *core.Trace {
 	func() {
 		defer func() {
 			if p := recover(); p != nil {
-				e.Emit(core.Event{"ev": "Panic", "msg": fmt.Sprint(p)})
+				e.Emit(core.Event{"ev": "Panic", "msg": fmt.Sprint(p), "stack": core.ShortStack()})
 			}
 		}()
 		// learn the logical state first (plain open), then adopt it as the model
@@ -306,11 +306,7 @@ func CheckC01(r *core.Run) {
 		}
 	}
 judged:
-	judgeTx(r, "TxTrace_C01.cfg", main, false)
-	// continuation traces: every rejection means the recovered file is not fully operational
-	rej := r.Judge(core.JudgeOpts{Module: "TxTrace", Config: "TxTrace_C01c.cfg", Timeout: 30 * time.Minute, HeapMB: 3000}, conts)
-	for _, rj := range rej {
-		path := r.SaveReplay(rj.Trace.Name+".ndjson", rj.Trace.Serialize())
-		r.Violate(core.Violation{Signature: "recovered-file-not-operational:" + rj.Kind + ":" + lastEvName(rj), What: rj.Describe(), Replay: path})
-	}
+	judgeTx(r, main, reportOpts{})
+	// continuation traces: every deviation means the recovered file is not fully operational
+	judgeTx(r, conts, reportOpts{Mine: []string{"C03", "C04", "C07", "C10", "C11"}, Context: func(core.Reject) string { return ":recovered-file" }})
 }
